@@ -118,6 +118,9 @@ fn corpus() -> Vec<String> {
         "[1::3:4:5:6:7:8]", "[1:2:3:4:5:6:1.2.3.4]", "[::1.2.3.4]", "[1::1.2.3.4]", "[1:2:3:4:5:6:7:8:9]", "[1::2::3]", "[:1::]", "[12345::]", "[g::]", "[v1.a]", "[V1.a]", "[v.a]", "[v1f.:]",
         "[v1.]", "[::ffff:1.2.3.256]", "é", "a%20b", "a%2", "a%zz", "a b", "[1:2:3:4:5:6::8]", "[1:2:3:4:5::8]", "[1:2:3:4::8]", "[1:2:3::8]", "[1:2::8]", "[1::8]",
         "[f::1]", "[1:2::3:4:5:6:7]", "[1f::1::]",
+        // dec-octet: no leading zero, at most 255 - in an IPv4 tail of an IP-literal the registered-name production can not take over
+        "[::ffff:192.168.01.1]", "[::1.2.3.04]", "[::01.2.3.4]", "[::255.255.255.255]", "[::256.1.1.1]", "[::1.2.3.4.5]", "[1:2:3:4:5:6:192.168.1.001]", "[::199.200.249.250]",
+        "[::1.2.3.260]", "[::1.2.3.300]", "[::00.0.0.0]", "[::0.0.0.0]", "192.168.01.1", "01.2.3.4", "[1::9.09.9.9]", "[::1.2.3]", "[::1.2.3.]",
     ];
     // every shape of IPv6address: k groups, "::", m groups (k + m <= 9), with and without an IPv4 tail; no "::" with 1..9 groups
     let mut hosts: Vec<String> = hosts.iter().map(|h| h.to_string()).collect();
@@ -176,6 +179,10 @@ fn corpus() -> Vec<String> {
         v.push(format!("?{s}"));
         v.push(format!("#{s}"));
     }
+    // control characters and line ends: a string is judged as a whole, not line by line
+    for s in ["http://example.org/\n", "\nhttp://example.org/", "http://a/\n#f", "a\nb", "\n", "not an <IRI> at all\n", "http://a/b\r\n", "x:y\nz", "\n/a", "?q\n", "http://a/\t"] {
+        v.push(s.to_string());
+    }
     v.sort();
     v.dedup();
     v
@@ -183,7 +190,7 @@ fn corpus() -> Vec<String> {
 
 fn mutate(rng: &mut Rng, s: &str) -> String {
     let cs: Vec<char> = s.chars().collect();
-    let extra = ['a', ':', '/', '?', '#', '[', ']', '@', '%', '1', '.', 'f', 'v', ' ', 'é', '\u{E000}', '<'];
+    let extra = ['a', ':', '/', '?', '#', '[', ']', '@', '%', '1', '.', 'f', 'v', ' ', 'é', '\u{E000}', '<', '\n', '0'];
     let mut out = cs.clone();
     match rng.below(3) {
         0 if !out.is_empty() => {
